@@ -207,10 +207,10 @@ pub fn plans(prop: &str, tier: &str) -> Vec<Plan> {
             w.check.c01 = true;
             w.ops.extend([Op::Restore(Path::SnapJson), Op::Restore(Path::Text), Op::Restore(Path::Serde)]);
             vec![
-                Plan { cfg: a, depth: d(4, 5) },
-                Plan { cfg: z, depth: d(6, 9) },
-                Plan { cfg: e, depth: d(5, 8) },
-                Plan { cfg: w, depth: d(4, 6) },
+                Plan { cfg: a, depth: d(4, 7) },
+                Plan { cfg: z, depth: d(6, 12) },
+                Plan { cfg: e, depth: d(5, 10) },
+                Plan { cfg: w, depth: d(4, 8) },
             ]
         }
         "C02" => {
@@ -228,10 +228,10 @@ pub fn plans(prop: &str, tier: &str) -> Vec<Plan> {
             let mut e = sc_edge(prop);
             e.check.c02 = true;
             vec![
-                Plan { cfg: a, depth: d(4, 5) },
+                Plan { cfg: a, depth: d(4, 6) },
                 Plan { cfg: o, depth: d(6, 8) },
-                Plan { cfg: z, depth: d(6, 9) },
-                Plan { cfg: e, depth: d(5, 8) },
+                Plan { cfg: z, depth: d(6, 11) },
+                Plan { cfg: e, depth: d(5, 10) },
             ]
         }
         "C04" => {
@@ -276,7 +276,7 @@ pub fn plans(prop: &str, tier: &str) -> Vec<Plan> {
             ));
             vec![
                 Plan { cfg: o, depth: d(6, 8) },
-                Plan { cfg: a, depth: d(5, 6) },
+                Plan { cfg: a, depth: d(5, 7) },
             ]
         }
         "C06" => {
@@ -287,8 +287,8 @@ pub fn plans(prop: &str, tier: &str) -> Vec<Plan> {
             a.check.c06 = true;
             a.check.drain = true;
             vec![
-                Plan { cfg: z, depth: d(7, 10) },
-                Plan { cfg: a, depth: d(4, 5) },
+                Plan { cfg: z, depth: d(7, 13) },
+                Plan { cfg: a, depth: d(4, 7) },
             ]
         }
         "C07" => {
@@ -314,9 +314,9 @@ pub fn plans(prop: &str, tier: &str) -> Vec<Plan> {
             w.absent_ops = true;
             w.variants = vec![(false, false), (true, false), (false, true), (true, true)];
             vec![
-                Plan { cfg: a, depth: d(4, 5) },
-                Plan { cfg: o, depth: d(5, 6) },
-                Plan { cfg: w, depth: d(4, 5) },
+                Plan { cfg: a, depth: d(4, 6) },
+                Plan { cfg: o, depth: d(5, 7) },
+                Plan { cfg: w, depth: d(4, 7) },
             ]
         }
         "C10" => {
@@ -327,9 +327,9 @@ pub fn plans(prop: &str, tier: &str) -> Vec<Plan> {
             let mut e = sc_edge(prop);
             e.check.c10 = true;
             vec![
-                Plan { cfg: a, depth: d(3, 4) },
-                Plan { cfg: o, depth: d(4, 6) },
-                Plan { cfg: e, depth: d(3, 5) },
+                Plan { cfg: a, depth: d(3, 5) },
+                Plan { cfg: o, depth: d(4, 7) },
+                Plan { cfg: e, depth: d(3, 6) },
             ]
         }
         "C11" => {
@@ -380,7 +380,7 @@ pub fn plans(prop: &str, tier: &str) -> Vec<Plan> {
             o.stats_in_key = true;
             o.ops.extend(upds(&[1, 2, 3], &[UpdKind::Move]));
             vec![
-                Plan { cfg: a, depth: d(4, 5) },
+                Plan { cfg: a, depth: d(4, 6) },
                 Plan { cfg: o, depth: d(5, 7) },
             ]
         }
